@@ -211,6 +211,26 @@ def _vm_goal(case, out):
             ["(%s, %s)" % tuple(_vm_str(x) for x in e.split(":")) for e in p[1].split(",")], "(str * str)")
         exp = _vm_list([] if o[0] == "_" else [_vm_str(x) for x in o[0].split(",")], "str")
         return "list_tags %s %s = %s" % (ents, _vm_str(p[2]), exp)
+    if k == "CS":
+        sch, hst = p[1], p[2]
+        kd, n, limit, at, last, cbf, path, q, nresp = p[3:12]
+        nr = int(nresp)
+        rest = p[12:]
+        resps = []
+        for i in range(nr):
+            st, nu, ct, js, dl, tl, its, links, fh, fa, tt, tp, tq = rest[13 * i:13 * i + 13]
+            ls = _vm_list([] if links == "_" else [_vm_str(x) for x in links.split(",")], "str")
+            resps.append("(mkResp %s %s %s %s %s %s %s %s %s %s)" % (st, _vm_bool(nu), _vm_str(ct), _vm_bool(js), dl, tl,
+                                                                      _vm_items(its), ls, _vm_str(fh), _vm_str(fa)))
+        cfg = "(mkCfg %s %s %s %s)" % (_vm_kind(kd), _vm_z(n), _vm_z(limit), _vm_str(at))
+        serve = "(fun (i : nat) (_ : sreq) => nth i %s vm_dead)" % _vm_list(resps, "response")
+        cb = "(fun k : nat => Nat.eqb k %d)" % int(cbf) if int(cbf) >= 0 else "(fun _ : nat => false)"
+        q0 = "(referrers_q0 %s)" % _vm_str(at) if kd == "R" else "(@nil N)"
+        call = "loop_s %s %s %s %s %s %d 0 0 %s %s %s" % (_vm_str(sch), _vm_str(hst), serve, cb, cfg, nr + 2, _vm_str(path), q0, _vm_str(last))
+        if o[0] == "UNJUDGED":
+            return "%s = None" % call
+        reqs = _vm_list(["(mkSR %s %s)" % tuple(_vm_str(x) for x in r.split("?", 1)) for r in ([] if o[1] == "_" else o[1].split("|"))], "sreq")
+        return "%s = Some (mkST %s %s %s)" % (call, reqs, _vm_pages(o[4], int(o[3])), o[6])
     if k == "U":
         kd, n, sch, hst, bp, bq, hdr = p[1:8]
         call = "next_request (mkCfg %s %s 0%%Z []) (mkS %s %s %s %s) %s" % (_vm_kind(kd), _vm_z(n), _vm_str(sch), _vm_str(hst), _vm_str(bp), _vm_str(bq), _vm_str(hdr))
@@ -256,7 +276,7 @@ def _c15_vm_sample(d, tier, coq, build, want=300):
             outs[i] = o
     # a spread over the case kinds, small cases preferred (the term is type-checked too)
     quota = {"C": 80, "W": 60, "S": 45, "L": 10, "F": 6, "FR": 6, "Z": 6, "O": 10, "X": 10, "P": 8,
-             "U": 40, "U0": 10, "QS": 15, "QE": 10, "RR": 40}
+             "U": 40, "U0": 10, "QS": 15, "QE": 10, "RR": 40, "CS": 40}
     got = collections.Counter()
     stride = collections.Counter()
     total = collections.Counter()
